@@ -71,6 +71,16 @@ Added after independent mutation testing found a gap:
       The reported code/reason are now captured AT THE MOMENT of the notification: inside on_message_callback(None)
       (vlib/wsharness.ClientSide.close_seen), when the read_message() future resolves with None, and -- server -- the
       values on_close itself saw; the "== the peer's when its close frame was processed" clause is asserted on those.
+  M14 ("state carried over") WebSocketClientConnection.on_connection_close: read_queue.put_nowait(None) instead of the
+      awaited put: with a received message still UNREAD at close time the one-slot queue is full, QueueFull escapes, the
+      close notification fires zero times and the teardown is skipped
+                                                                      -> C16.closed_without_notification / notification_count_at_end, seeds 1-3
+      New dimension for the future-style client (`lazy_reads`): the application does not read while the history runs, so
+      0, 1, 2, ... received messages are unread (the 2nd one blocks the receive loop like an unfinished on_message) when the
+      close frame / FIN / local close / timeout is processed; "release" = one read_message(); at the end everything is read
+      and must be: the fed messages in order (C16.in_flight_messages), then exactly one None, with the peer's code/reason as
+      seen when that read resolved.  Labels unread_messages_N / close_processed_with_N_unread; deterministic part
+      `unread_grid` (0..3 unread x 8 endings).
   M13 control-frame length check off by one (`payloadlen >= 125` instead of `>= 126`): a close frame with code + 123-byte
       reason (payload exactly 125) or a 125-byte ping aborts the connection: no echo, close notification with (None, None)
                                                                       -> C16.reported_close_code (all parts) / C16.ping_not_answered, seeds 1-3
@@ -307,6 +317,9 @@ ref_case_s = st.fixed_dictionaries({
     "async_on_message": st.booleans(),
     "callback_mode": st.booleans(),
     "ops": st.lists(ref_op_s, min_size=1, max_size=14),
+    # client, read_message() style: the application does not read while the history runs -- received messages stay
+    # unread in the connection (0, 1, 2, ... of them) when the close frame / disconnect is processed; "release" reads one
+    "lazy_reads": st.booleans(),
     "bad_reason": st.sampled_from([False] * 9 + [True]),   # peer close frames carry an invalid UTF-8 reason (C15's finding, observed from C16's side)
 })
 
@@ -315,6 +328,7 @@ def run_ref(ctx, case):
     role = case["role"]
     labels = {"ref_" + role}
     out = {"nontrivial": False}
+    lazy = role == "client" and not case["callback_mode"] and bool(case.get("lazy_reads"))
 
     async def scenario():
         loop = asyncio.get_running_loop()
@@ -349,8 +363,22 @@ def run_ref(ctx, case):
                         lambda t: conn.write_message(t), lambda d: conn.ping(d), lambda c, r: conn.close(c, r))
             enc = H.RefEncoder("server")
             got_msgs = cl.messages
+            if lazy:
+                cl.auto_read = False
+                labels.add("client_lazy_reads")
         peer.decoder.control_after_close_ok = True
-        blocked = lambda: any(not f.done() for f in pending)
+        fed_texts = []            # text messages fed by the peer while Tornado could still read them
+
+        def blocked():
+            """The receive loop is stuck: an on_message coroutine is unfinished (server) / the one-slot read queue is full
+            and the next message waits to be put (lazy client: >=2 messages received but not read)."""
+            if lazy:
+                return len(fed_texts) - len(cl.messages()) >= 2
+            return any(not f.done() for f in pending)
+
+        def unobservable():
+            """A lazy client cannot have seen the close notification before it reads."""
+            return lazy and not out.get("draining")
         fed_close = None          # (code, reason) fed completely, not yet known to be processed
         partial = False           # a partial frame is in flight (the stream can no longer be parsed by Tornado)
         t0 = loop.time()
@@ -381,11 +409,11 @@ def run_ref(ctx, case):
                 return False
             if out.get("bad_close_processed"):
                 # C15's clause seen from here: the connection must be gone and reported once
-                if not side.stream.closed() or side.closes_fn() != 1:
+                if not side.stream.closed() or (side.closes_fn() != 1 and not unobservable()):
                     ctx.fail("C16.bad_close_frame_teardown", {"closed": side.stream.closed(), "notifications": side.closes_fn(), "role": role},
                              sig="C16.teardown.peer_close_reason_not_utf8")
                     return False
-            check_state(ctx, side, step, op, now, blocked=blocked())
+            check_state(ctx, side, step, op, now, blocked=blocked() or unobservable())
             return True
 
         for step, op in enumerate(case["ops"]):
@@ -400,6 +428,8 @@ def run_ref(ctx, case):
                 data = (enc.frame(wsref.OP_TEXT, text.encode()) if text is not None else b"") + \
                     enc.frame(wsref.OP_CLOSE, wsref.close_payload(code, reason or ""))
                 was_blocked = blocked()
+                if text is not None and out["open_at_step_start"]:
+                    fed_texts.append(text)
                 fed_close = (code, (reason or None) if code is not None else None, False)
                 out["close_fed_while_open"] = out["open_at_step_start"]
                 side.stream.feed(data, H.segments(len(data), segs, cap=len(segs), bulk=1 << 20))
@@ -469,10 +499,18 @@ def run_ref(ctx, case):
                 await peer.send(frame, H.segments(len(frame), segs, cap=len(segs), bulk=1 << 20))
                 if segs:
                     labels.add("peer_msg_segmented")
+                if out["open_at_step_start"]:
+                    fed_texts.append(op[1])
+                if lazy:
+                    labels.add("unread_messages_%d" % min(len(fed_texts) - len(cl.messages()), 3))
                 labels.add("peer_msg_after_local_close" if side.local_closed else "peer_msg")
-                if not side.local_closed and not blocked() and out["open_at_step_start"] and side.peer_close is None:
+                if not side.local_closed and not blocked() and out["open_at_step_start"] and side.peer_close is None and not lazy:
                     if got_msgs()[n_before:] != [op[1]]:
                         ctx.fail("C16.message_lost_before_close", {"step": step})
+                cause = "delivery"
+            elif kind == "release" and lazy:
+                await cl.read_one()          # the application takes one message (or the close notification)
+                labels.add("lazy_read_one")
                 cause = "delivery"
             elif kind == "release":
                 if not blocked():
@@ -538,6 +576,13 @@ def run_ref(ctx, case):
             # ---- every history ends: release what is pending, then the closing timeout or a disconnect
             out["open_at_step_start"] = not side.stream.closed()
             out["step_kind"] = "release"
+            if lazy:
+                # now the application reads everything that is there (and keeps one read outstanding)
+                if fed_close is not None or side.eof or side.stream.closed():
+                    labels.add("close_processed_with_%d_unread" % min(len(fed_texts) - len(cl.messages()), 3))
+                out["draining"] = True
+                cl.auto_read = True
+                await peer.settle()
             for _ in range(40):     # a released on_message lets the next queued message start a new one
                 if not blocked():
                     break
@@ -563,6 +608,10 @@ def run_ref(ctx, case):
                     ok = await observe("end-eof", None, "delivery")
             if ok:
                 await final_checks(ctx, side, peer.advance, loop, labels)
+            if ok and lazy:
+                got = cl.messages()
+                if got != fed_texts[: len(got)] or (side.peer_close is not None and len(got) != len(fed_texts)):
+                    ctx.fail("C16.in_flight_messages", {"read": got[:4], "fed": fed_texts[:4], "peer_close": side.peer_close})
         H.teardown(side.stream)
         await vtime.settle(pump=side.stream.pump_once)
 
@@ -973,12 +1022,33 @@ def goodbye_grid():
                            "ops": [("peer_msg", "héllo", segs)] + extra + [("burst", text, pc, [], True), ("release",)]}
 
 
-PARTS = {"ref": run_ref, "pair": run_pair, "ping": run_ping, "goodbye_grid": run_ref}
+def unread_grid():
+    """Deterministic: future-style client whose application has NOT read 0..3 received messages when the close is
+    processed, x the ways a connection ends; the application reads afterwards (end of history) and must get the
+    messages in order and then exactly one None, with the peer's code/reason."""
+    endings = [
+        [("peer_close", (1000, "bye"), [])],
+        [("eof", "fin", 0)],
+        [("burst", None, (1001, "näher"), [], True)],
+        [("burst", "last", (1000, None), [], True)],
+        [("local_close", (1000, None)), ("peer_close", (1000, R123), [])],
+        [("local_close", (None, None)), ("advance", 5.000001)],
+        [("release",), ("peer_close", (3000, "x"), [])],
+        [("peer_close", (1000, "bye"), []), ("release",), ("release",)],
+    ]
+    for unread in (0, 1, 2, 3):
+        for ending in endings:
+            yield {"role": "client", "async_on_message": False, "callback_mode": False, "lazy_reads": True, "bad_reason": False,
+                   "ops": [("peer_msg", "m%d" % i, [6] if i % 2 else []) for i in range(unread)] + ending}
+
+
+PARTS = {"ref": run_ref, "pair": run_pair, "ping": run_ping, "goodbye_grid": run_ref, "unread_grid": run_ref}
 
 
 def main(ctx):
     ctx.run_replays(PARTS)
     ctx.enumerate(goodbye_grid(), run_ref, name="goodbye_grid")
+    ctx.enumerate(unread_grid(), run_ref, name="unread_grid")
     ctx.explore(ref_case_s, run_ref, ctx.n(2000, 14000), name="ref")
     ctx.explore(pair_case_s, run_pair, ctx.n(1200, 10000), name="pair")
     ctx.explore(ping_case_s, run_ping, ctx.n(800, 6000), name="ping")
